@@ -4,7 +4,7 @@
    Executable models that follow the Go code statement by statement (after the repairs e394a21, 84c8b2c, 72f5085, ef49a98), the
    specification (the ancestor-or-equal relation `Ids.overlaps` on both axes = the regions share a point, Voxel.overlaps_iff_meet),
    and the proofs. Error messages are not modelled; on an error the Go functions return (false, err): `Err`. *)
-From Coq Require Import ZArith Lia String List Bool Reals.
+From Coq Require Import ZArith Lia String List Bool Reals Lra.
 From Flocq Require Import Core.
 From SID Require Import Base Str Ids Voxel ZoomCore AltKeyCore ChangeZoom Radix Digits.
 Import ListNotations.
@@ -257,16 +257,13 @@ Definition sid_attrs (s : string) : result (Z * Z * Z * Z) :=
      convertedFIndex, _, err := transform.ConvertZToMinMaxAltitudekey(f, zoom, zoom, consts.ZOriginValue, consts.ZBaseOffsetForNegativeFIndex)
      if convertedFIndex < 0 { return false, error }       (on an error the Go function returns (0, 0, err), so this test is passed)
      if err != nil { return false, err }
-   int64: for zoom >= 64 the shift `1 << zoom` of validateIndexExists is 0, for zoom < 0 the shift `1 >> -zoom` is 0, and no index
-   exists (error; zoom = MinInt64 panics with a negative shift amount — defect D10 of ConvertZToMinMaxAltitudekey, outside this property).
-   The unbounded model of AltKeyCore.v is exact for zooms 0..63, hence the first guard (which also keeps the model from iterating a
-   shift 2^60 times on a hostile zoom). *)
+   Since the repair 9dab435 the conversion first refuses zooms outside 0..35 (AltKeyCore.zoom_ok), so no shift is ever taken with a
+   hostile zoom: 36..63, >= 64, negative and MinInt64 are all plain errors. *)
 Definition fkey (f z : Z) : result Z :=
-  if (z <? 0) || (64 <=? z) then Err
-  else match z2key f z z zorigin zbase_offset_neg with
-       | Err => Err
-       | Ok (mn, _) => if mn <? 0 then Err else Ok mn
-       end.
+  match z2key f z z zorigin zbase_offset_neg with
+  | Err => Err
+  | Ok (mn, _) => if mn <? 0 then Err else Ok mn
+  end.
 
 (* the radix-tree key of (f', x, y) at zoom z: tree.Indexs{f', x, y} with tree.ZoomSetLevel(z) *)
 Definition skey (z f' x y : Z) : list Z := digits (Z.to_nat z) f' x y.
@@ -338,17 +335,20 @@ Proof.
     f_equal. lia.
 Qed.
 
-(* exactly when the conversion succeeds, and what it returns: inside the altitude domain the index moved by 2^(z-1), outside an error *)
-Theorem fkey_exact z f : 0 <= z <= 63 -> fkey f z = if altdomb z f then Ok (f + 2 ^ (z - 1)) else Err.
+(* exactly when the conversion succeeds, and what it returns — for EVERY zoom and EVERY index: zoom 1..35 and inside the altitude domain:
+   the index moved by 2^(z-1); otherwise (zoom 0, zoom outside 0..35, index outside the domain) an error *)
+Lemma zoom_ok_spec z : zoom_ok z = true <-> 0 <= z <= 35.
+Proof. unfold zoom_ok. rewrite andb_true_iff, !Z.leb_le. tauto. Qed.
+Theorem fkey_exact z f : fkey f z = if zoom_ok z && altdomb z f then Ok (f + 2 ^ (z - 1)) else Err.
 Proof.
-  intros Hz. unfold fkey. destruct (Z.ltb_spec z 0); [lia|]. destruct (Z.leb_spec 64 z); [lia|]. cbn [orb].
+  unfold fkey, z2key. destruct (zoom_ok z) eqn:Ez; cbn [negb orb andb]; [|reflexivity]. apply zoom_ok_spec in Ez.
   destruct (Z.eq_dec z 0) as [->|Nz].
   - (* zoom 0: the single pair of cells [-2^25,0), [0,2^25) m is larger than the domain *)
     replace (altdomb 0 f) with false by (unfold altdomb; reflexivity).
-    unfold z2key. destruct (index_exists f 0 true) eqn:E; [|reflexivity]. cbn [negb].
+    destruct (index_exists f 0 true) eqn:E; [|reflexivity]. cbn [negb].
     unfold index_exists in E. rewrite ashift_0 in E. apply negb_true_iff, orb_false_iff in E. destruct E as [E1 E2].
     apply Z.ltb_ge in E1, E2. assert (C : f = -1 \/ f = 0) by lia. destruct C as [-> | ->]; vm_compute; reflexivity.
-  - assert (Hz1 : 1 <= z) by lia. unfold z2key. rewrite (z2key_raw_offset z f Hz1).
+  - assert (Hz1 : 1 <= z) by lia. rewrite (z2key_raw_offset z f Hz1).
     unfold index_exists. rewrite ashift_nonneg by lia. rewrite Z.mul_1_l.
     assert (E2 : 2 ^ z = 2 * 2 ^ (z - 1)) by (rewrite <- Z.pow_succ_r by lia; f_equal; lia).
     pose proof (pow2_pos (z - 1) ltac:(lia)) as Hp. unfold altdomb. rewrite E2. set (p := 2 ^ (z - 1)) in *.
@@ -357,13 +357,19 @@ Proof.
       (Z.leb_spec (- p) f), (Z.ltb_spec f p); cbn [negb orb andb]; try lia; try reflexivity.
     destruct (Z.ltb_spec (f + p) 0); [lia|reflexivity].
 Qed.
-Corollary fkey_dom z f : 0 <= z <= 63 -> altdom z f -> fkey f z = Ok (f + 2 ^ (z - 1)).
-Proof. intros Hz D. rewrite fkey_exact by exact Hz. apply altdomb_spec in D. now rewrite D. Qed.
-Corollary fkey_err_iff z f : 0 <= z <= 63 -> fkey f z = Err <-> ~ altdom z f.
-Proof. intros Hz. rewrite fkey_exact by exact Hz. rewrite <- altdomb_spec. destruct (altdomb z f); split; try discriminate; try congruence; auto. Qed.
-(* zoom 0 is always refused; so is every valid index outside the altitude domain *)
+Corollary fkey_dom z f : 0 <= z <= 35 -> altdom z f -> fkey f z = Ok (f + 2 ^ (z - 1)).
+Proof. intros Hz D. rewrite fkey_exact. apply zoom_ok_spec in Hz. apply altdomb_spec in D. now rewrite Hz, D. Qed.
+Corollary fkey_err_iff z f : fkey f z = Err <-> ~ (0 <= z <= 35 /\ altdom z f).
+Proof.
+  rewrite fkey_exact, <- zoom_ok_spec, <- altdomb_spec.
+  destruct (zoom_ok z), (altdomb z f); cbn [andb]; split; try discriminate; try reflexivity; intros H; try (exfalso; apply H; auto);
+    intros [A B]; discriminate.
+Qed.
+(* zoom 0 is always refused; so is every zoom outside 0..35, whatever the index *)
 Corollary fkey_zoom0 f : fkey f 0 = Err.
-Proof. apply fkey_err_iff; [lia|]. unfold altdom. lia. Qed.
+Proof. apply fkey_err_iff. unfold altdom. lia. Qed.
+Corollary fkey_bad_zoom z f : z < 0 \/ 35 < z -> fkey f z = Err.
+Proof. intros H. apply fkey_err_iff. lia. Qed.
 
 (* moving by 2^(z-1) commutes with taking the floor-ancestor (z >= 1 on the coarser side) *)
 Lemma offset_anc za zb fa fb : 1 <= za <= zb ->
@@ -546,30 +552,29 @@ Proof.
   - now rewrite N.
   - destruct (parse_sid a); [|reflexivity]. destruct (fkey _ _); [|reflexivity]. now apply IH.
 Qed.
-Theorem sp_insert_out_of_domain l1 s i t : In s l1 -> parse_sid s = Some i -> 0 <= eh i <= 63 -> ~ altdom (eh i) (ef i) -> sp_insert l1 t = Err.
+Theorem sp_insert_out_of_domain l1 s i t : In s l1 -> parse_sid s = Some i -> ~ (0 <= eh i <= 35 /\ altdom (eh i) (ef i)) -> sp_insert l1 t = Err.
 Proof.
-  revert t. induction l1 as [|a r IH]; intros t Hin P Hz N; [contradiction|]. cbn [sp_insert]. destruct Hin as [->|Hin].
-  - rewrite P. apply (fkey_err_iff _ _ Hz) in N. now rewrite N.
+  revert t. induction l1 as [|a r IH]; intros t Hin P N; [contradiction|]. cbn [sp_insert]. destruct Hin as [->|Hin].
+  - rewrite P. apply fkey_err_iff in N. now rewrite N.
   - destruct (parse_sid a); [|reflexivity]. destruct (fkey _ _); [|reflexivity]. now apply IH.
 Qed.
 Corollary sp_array_first_list_error l1 l2 s : In s l1 ->
-  (parse_sid s = None \/ exists i, parse_sid s = Some i /\ 0 <= eh i <= 63 /\ ~ altdom (eh i) (ef i)) -> sp_array l1 l2 = Err.
+  (parse_sid s = None \/ exists i, parse_sid s = Some i /\ ~ (0 <= eh i <= 35 /\ altdom (eh i) (ef i))) -> sp_array l1 l2 = Err.
 Proof.
-  intros Hin [N|(i & P & Hz & N)]; unfold sp_array.
+  intros Hin [N|(i & P & N)]; unfold sp_array.
   - now rewrite (sp_insert_malformed l1 s rempty Hin N).
-  - now rewrite (sp_insert_out_of_domain l1 s i rempty Hin P Hz N).
+  - now rewrite (sp_insert_out_of_domain l1 s i rempty Hin P N).
 Qed.
-(* the pairwise form: an error exactly when one of the two IDs is outside the altitude domain (zoom 0, or |altitude| beyond 2^24 m) *)
-Theorem sp_overlap_error_iff a b i j : parse_sid a = Some i -> parse_sid b = Some j -> 0 <= eh i <= 63 -> 0 <= eh j <= 63 ->
-  sp_overlap a b = Err <-> ~ altdom (eh i) (ef i) \/ ~ altdom (eh j) (ef j).
+(* the pairwise form: an error exactly when one of the two IDs is outside the domain of the conversion (zoom 0, zoom outside 0..35, or
+   |altitude| beyond 2^24 m) — no other hypothesis on the two well-formed IDs *)
+Definition convdom (i : eid) : Prop := 0 <= eh i <= 35 /\ altdom (eh i) (ef i).
+Theorem sp_overlap_error_iff a b i j : parse_sid a = Some i -> parse_sid b = Some j ->
+  sp_overlap a b = Err <-> ~ convdom i \/ ~ convdom j.
 Proof.
-  intros Pa Pb Hi Hj. unfold sp_overlap, sp_array. cbn [sp_insert sp_query]. rewrite Pa, Pb.
-  rewrite (fkey_exact (eh i) (ef i) Hi), (fkey_exact (eh j) (ef j) Hj), <- !altdomb_spec.
-  destruct (altdomb (eh i) (ef i)), (altdomb (eh j) (ef j)); cbn [sp_insert sp_query].
-  - destruct (rsearch _ _); split; try discriminate; intros [H|H]; exfalso; apply H; reflexivity.
-  - split; [intros _; right; discriminate|reflexivity].
-  - split; [intros _; left; discriminate|reflexivity].
-  - split; [intros _; left; discriminate|reflexivity].
+  intros Pa Pb. unfold convdom. rewrite <- !fkey_err_iff. unfold sp_overlap, sp_array. cbn [sp_insert sp_query]. rewrite Pa, Pb.
+  destruct (fkey (ef i) (eh i)) as [fi|]; [|split; auto].
+  cbn [sp_insert]. destruct (fkey (ef j) (eh j)) as [fj|]; [|split; auto].
+  destruct (rsearch _ _); split; try discriminate; intros [H|H]; discriminate.
 Qed.
 Theorem sp_overlap_malformed a b : parse_sid a = None \/ parse_sid b = None -> sp_overlap a b = Err.
 Proof.
@@ -594,10 +599,6 @@ Proof.
   intros Hz Hf Hx Hy. unfold sid_attrs. change (join [print z; print f; print x; print y]) with (print_sid (mk z x y z f)).
   rewrite parse_print_sid; [reflexivity| |reflexivity]. unfold fields_ok. cbn. now rewrite Hz, Hf, Hx, Hy.
 Qed.
-
-(* zooms outside 0..63 are refused whatever the index is *)
-Lemma fkey_bad_zoom z f : z < 0 \/ 64 <= z -> fkey f z = Err.
-Proof. intros H. unfold fkey. destruct (Z.ltb_spec z 0), (Z.leb_spec 64 z); try reflexivity; lia. Qed.
 
 (* ================================================================================================================== *)
 (* 7. Run-time checker of an observed answer against the reference (independent of either algorithm)                   *)
@@ -678,4 +679,184 @@ Proof.
   - intros (k & Hk & P). apply in_map_iff in Hk. destruct Hk as (a & <- & Ha). exists a. split; [exact Ha|].
     apply rel4b_spec, tkey_overlap_iff; auto.
   - intros (a & Ha & R). exists (tkey a). split; [now apply in_map|]. apply tkey_overlap_iff; auto. now apply rel4b_spec.
+Qed.
+
+(* ================================================================================================================== *)
+(* 9. Lists with members outside the quantifier: what the answer must still satisfy (per-member fallback checker)      *)
+(* ================================================================================================================== *)
+
+(* the members of a list that lie inside the property's quantifier *)
+Definition vmem (l : list string) : list eid :=
+  flat_map (fun s => match parse_eid s with Some i => if validb i then [i] else [] | None => [] end) l.
+Definition smem (l : list string) : list eid :=
+  flat_map (fun s => match parse_sid s with Some i => if sdomb i then [i] else [] | None => [] end) l.
+Lemma vmem_In l i : In i (vmem l) <-> exists s, In s l /\ parse_eid s = Some i /\ valid i.
+Proof.
+  unfold vmem. rewrite in_flat_map. split.
+  - intros (s & Hs & H). destruct (parse_eid s) as [k|] eqn:P; [|contradiction]. destruct (validb k) eqn:V; [|contradiction].
+    destruct H as [<-|[]]. exists s. split; [exact Hs|]. split; [exact P|now apply validb_spec].
+  - intros (s & Hs & P & V). exists s. split; [exact Hs|]. rewrite P. apply validb_spec in V. rewrite V. now left.
+Qed.
+Lemma smem_In l i : In i (smem l) <-> exists s, In s l /\ parse_sid s = Some i /\ sdom i.
+Proof.
+  unfold smem. rewrite in_flat_map. split.
+  - intros (s & Hs & H). destruct (parse_sid s) as [k|] eqn:P; [|contradiction]. destruct (sdomb k) eqn:V; [|contradiction].
+    destruct H as [<-|[]]. exists s. split; [exact Hs|]. split; [exact P|now apply sdomb_spec].
+  - intros (s & Hs & P & V). exists s. split; [exact Hs|]. rewrite P. apply sdomb_spec in V. rewrite V. now left.
+Qed.
+
+(* whatever else the lists contain:  `false` without error means that every pair was examined, so no two in-quantifier members are related;
+   `true` needs two non-empty lists; an error is possible (a member outside the quantifier was reached) *)
+Definition nonnil {A} (l : list A) : bool := match l with [] => false | _ => true end.
+Definition check_fallback (v1 v2 : list eid) (n1 n2 : bool) (obs : result bool) : bool :=
+  match obs with
+  | Ok false => negb (ref_pairs v1 v2)
+  | Ok true => n1 && n2
+  | Err => true
+  end.
+Definition spec_fallback (v1 v2 : list eid) (n1 n2 : bool) (obs : result bool) : Prop :=
+  (obs = Ok false -> ~ exists i j, In i v1 /\ In j v2 /\ overlaps i j) /\ (obs = Ok true -> n1 = true /\ n2 = true).
+Theorem check_fallback_sound v1 v2 n1 n2 obs : check_fallback v1 v2 n1 n2 obs = true <-> spec_fallback v1 v2 n1 n2 obs.
+Proof.
+  unfold check_fallback, spec_fallback, ref_pairs. destruct obs as [[|]|].
+  - rewrite andb_true_iff. split; [intros H; split; [discriminate|auto]|intros [_ H]; auto].
+  - rewrite negb_true_iff, <- exists_pair_iff. split.
+    + intros H. split; [|discriminate]. intros _ E. congruence.
+    + intros [H _]. destruct (existsb _ v1) eqn:E; [|reflexivity]. exfalso. now apply H.
+  - split; [|reflexivity]. intros _. split; discriminate.
+Qed.
+
+(* --- the extended model satisfies it on ALL lists --- *)
+Lemma ext_inner_false a l2 : ext_inner a l2 = Ok false -> forall b, In b l2 -> ext_overlap a b = Ok false.
+Proof.
+  induction l2 as [|c r IH]; intros H b Hb; [contradiction|]. cbn [ext_inner] in H.
+  destruct (ext_overlap a c) as [[|]|] eqn:E; try discriminate. destruct Hb as [<-|Hb]; [exact E|now apply IH].
+Qed.
+Lemma ext_array_false l1 l2 : ext_array l1 l2 = Ok false -> forall a b, In a l1 -> In b l2 -> ext_overlap a b = Ok false.
+Proof.
+  induction l1 as [|c r IH]; intros H a b Ha Hb; [contradiction|]. cbn [ext_array] in H.
+  destruct (ext_inner c l2) as [[|]|] eqn:E; try discriminate. destruct Ha as [<-|Ha]; [now apply (ext_inner_false c l2 E)|now apply IH].
+Qed.
+Theorem ext_array_fallback l1 l2 : check_fallback (vmem l1) (vmem l2) (nonnil l1) (nonnil l2) (ext_array l1 l2) = true.
+Proof.
+  apply check_fallback_sound. split.
+  - intros E (i & j & Hi & Hj & O). apply vmem_In in Hi, Hj. destruct Hi as (a & Ha & Pa & Vi). destruct Hj as (b & Hb & Pb & Vj).
+    pose proof (ext_array_false l1 l2 E a b Ha Hb) as F. rewrite (ext_overlap_spec a b i j Pa Pb Vi Vj) in F.
+    apply overlapsb_spec in O. congruence.
+  - intros E. destruct l1 as [|a r]; [discriminate|]. destruct l2 as [|b t]; [rewrite ext_array_nil_r in E; discriminate|]. split; reflexivity.
+Qed.
+
+(* --- the spatial model satisfies it on ALL lists --- *)
+Lemma sp_insert_keys l1 : forall t t', sp_insert l1 t = Ok t' ->
+  exists keys, t' = rbuild_from t keys /\ forall s i, In s l1 -> parse_sid s = Some i -> sdom i -> In (qkey i) keys.
+Proof.
+  induction l1 as [|a r IH]; intros t t' H.
+  - cbn in H. injection H as <-. exists []. split; [reflexivity|]. intros s i [].
+  - cbn [sp_insert] in H. destruct (parse_sid a) as [k|] eqn:P; [|discriminate]. destruct (fkey (ef k) (eh k)) as [f'|] eqn:F; [|discriminate].
+    destruct (IH _ _ H) as (keys & -> & K). exists (skey (eh k) f' (ex k) (ey k) :: keys). split; [reflexivity|].
+    intros s i [<-|Hs] Ps Di.
+    + left. rewrite P in Ps. injection Ps as ->. pose proof Di as (_ & Hz & _).
+      rewrite (fkey_dom (eh i) (ef i) ltac:(lia) (sdom_altdom i Di)) in F. injection F as <-. reflexivity.
+    + right. now apply (K s i).
+Qed.
+Lemma sp_query_false t l2 : sp_query false t l2 = Ok false ->
+  forall s j, In s l2 -> parse_sid s = Some j -> sdom j -> rsearch (qkey j) t = false.
+Proof.
+  induction l2 as [|a r IH]; intros H s j Hs Ps Dj; [contradiction|]. cbn [sp_query] in H.
+  destruct (parse_sid a) as [k|] eqn:P; [|discriminate]. destruct (fkey (ef k) (eh k)) as [f'|] eqn:F; [|discriminate].
+  destruct (rsearch (skey (eh k) f' (ex k) (ey k)) t) eqn:S; [discriminate|]. destruct Hs as [<-|Hs]; [|now apply (IH H s j)].
+  rewrite P in Ps. injection Ps as ->. pose proof Dj as (_ & Hz & _).
+  rewrite (fkey_dom (eh j) (ef j) ltac:(lia) (sdom_altdom j Dj)) in F. injection F as <-. exact S.
+Qed.
+Lemma sp_query_true e t l2 : sp_query e t l2 = Ok true -> e = false /\ l2 <> [].
+Proof.
+  induction l2 as [|a r IH]; intros H; [discriminate|]. split; [|discriminate]. cbn [sp_query] in H.
+  destruct (parse_sid a); [|discriminate]. destruct (fkey _ _); [|discriminate]. destruct e; [|reflexivity]. now apply IH.
+Qed.
+Theorem sp_array_fallback l1 l2 : check_fallback (smem l1) (smem l2) (nonnil l1) (nonnil l2) (sp_array l1 l2) = true.
+Proof.
+  apply check_fallback_sound. unfold sp_array. split.
+  - intros E (i & j & Hi & Hj & O). apply smem_In in Hi, Hj. destruct Hi as (a & Ha & Pa & Di). destruct Hj as (b & Hb & Pb & Dj).
+    destruct (sp_insert l1 rempty) as [t|] eqn:I; [|discriminate]. destruct (sp_insert_keys l1 _ _ I) as (keys & -> & K).
+    destruct l1 as [|a0 r0]; [contradiction|].
+    pose proof (sp_query_false _ l2 E b j Hb Pb Dj) as S. fold (rbuild keys) in S.
+    assert (T : rsearch (qkey j) (rbuild keys) = true).
+    { apply overlap_spec. exists (qkey i). split; [now apply (K a i)|]. now apply key_overlap_iff. }
+    congruence.
+  - intros E. destruct (sp_insert l1 rempty) as [t|]; [|discriminate]. apply sp_query_true in E. destruct E as [E1 E2].
+    destruct l1; [discriminate|]. destruct l2; [congruence|]. split; reflexivity.
+Qed.
+
+(* ================================================================================================================== *)
+(* 10. Spatial array form = disjunction of the pairwise FUNCTION; the intersection of two related voxels is a voxel      *)
+(* ================================================================================================================== *)
+
+Lemma map_opt_In_fwd {A B} (f : A -> option B) l : forall e s, map_opt f l = Some e -> In s l -> exists i, In i e /\ f s = Some i.
+Proof.
+  induction l as [|x r IH]; intros e s P Hs; [contradiction|]. apply map_opt_cons in P. destruct P as (i & t & -> & Px & Pr).
+  destruct Hs as [->|Hs]; [exists i; split; [now left|exact Px]|]. destruct (IH t s Pr Hs) as (k & Hk & Pk). exists k. split; [now right|exact Pk].
+Qed.
+Lemma map_opt_In_bwd {A B} (f : A -> option B) l : forall e i, map_opt f l = Some e -> In i e -> exists s, In s l /\ f s = Some i.
+Proof.
+  induction l as [|x r IH]; intros e i P Hi.
+  - cbn in P. injection P as <-. contradiction.
+  - apply map_opt_cons in P. destruct P as (k & t & -> & Px & Pr).
+    destruct Hi as [<-|Hi]; [exists x; split; [now left|exact Px]|]. destruct (IH t i Pr Hi) as (s & Hs & Ps). exists s. split; [now right|exact Ps].
+Qed.
+Theorem sp_array_pairwise l1 l2 e1 e2 : map_opt parse_sid l1 = Some e1 -> map_opt parse_sid l2 = Some e2 ->
+  (forall i, In i e1 -> sdom i) -> (forall j, In j e2 -> sdom j) ->
+  (sp_array l1 l2 = Ok true <-> exists a b, In a l1 /\ In b l2 /\ sp_overlap a b = Ok true) /\
+  (sp_array l1 l2 = Ok true \/ sp_array l1 l2 = Ok false).
+Proof.
+  intros P1 P2 D1 D2. rewrite (sp_array_spec l1 l2 e1 e2 P1 P2 D1 D2). split.
+  2:{ destruct (existsb _ e1); auto. }
+  split.
+  - intros [= E]. apply exists_pair_iff in E. destruct E as (i & j & Hi & Hj & O).
+    destruct (map_opt_In_bwd _ l1 e1 i P1 Hi) as (a & Ha & Pa). destruct (map_opt_In_bwd _ l2 e2 j P2 Hj) as (b & Hb & Pb).
+    exists a, b. split; [exact Ha|]. split; [exact Hb|]. rewrite (sp_overlap_spec a b i j Pa Pb (D1 i Hi) (D2 j Hj)). f_equal. now apply overlapsb_spec.
+  - intros (a & b & Ha & Hb & E). destruct (map_opt_In_fwd _ l1 e1 a P1 Ha) as (i & Hi & Pa). destruct (map_opt_In_fwd _ l2 e2 b P2 Hb) as (j & Hj & Pb).
+    rewrite (sp_overlap_spec a b i j Pa Pb (D1 i Hi) (D2 j Hj)) in E. injection E as E.
+    f_equal. apply exists_pair_iff. exists i, j. split; [exact Hi|]. split; [exact Hj|]. now apply overlapsb_spec.
+Qed.
+
+(* the per-axis finer voxel: when i and j are related, its box is exactly the intersection of the two boxes *)
+Definition finer (i j : eid) : eid :=
+  mk (Z.max (eh i) (eh j)) (if eh i <=? eh j then ex j else ex i) (if eh i <=? eh j then ey j else ey i)
+     (Z.max (ev i) (ev j)) (if ev i <=? ev j then ef j else ef i).
+Theorem related_boxes_intersect_in_a_box i j : 0 <= eh i -> 0 <= ev i -> 0 <= eh j -> 0 <= ev j -> overlaps i j ->
+  forall p, inR (finer i j) p <-> inR i p /\ inR j p.
+Proof.
+  intros Hi Vi Hj Vj O p. pose proof O as (Rx & Ry & Rf).
+  assert (Oi : overlaps i (finer i j)).
+  { unfold overlaps, finer; cbn. destruct (Z.leb_spec (eh i) (eh j)), (Z.leb_spec (ev i) (ev j));
+      rewrite ?(Z.max_l (eh i) (eh j)), ?(Z.max_r (eh i) (eh j)), ?(Z.max_l (ev i) (ev j)), ?(Z.max_r (ev i) (ev j)) by lia; repeat split; auto using rel1_refl. }
+  assert (Oj : overlaps j (finer i j)).
+  { apply overlaps_sym in O. destruct O as (Sx & Sy & Sf).
+    unfold overlaps, finer; cbn. destruct (Z.leb_spec (eh i) (eh j)), (Z.leb_spec (ev i) (ev j));
+      rewrite ?(Z.max_l (eh i) (eh j)), ?(Z.max_r (eh i) (eh j)), ?(Z.max_l (ev i) (ev j)), ?(Z.max_r (ev i) (ev j)) by lia; repeat split; auto using rel1_refl. }
+  split.
+  - intros F. split; [apply (inR_coarser i (finer i j) p)|apply (inR_coarser j (finer i j) p)]; cbn; auto; lia.
+  - destruct p as [[u w] a]. unfold inR, finer; cbn. intros ((X1 & Y1 & F1) & (X2 & Y2 & F2)).
+    destruct (Z.leb_spec (eh i) (eh j)), (Z.leb_spec (ev i) (ev j)); rewrite ?(Z.max_l (eh i) (eh j)), ?(Z.max_r (eh i) (eh j)), ?(Z.max_l (ev i) (ev j)), ?(Z.max_r (ev i) (ev j)) by lia; auto.
+Qed.
+(* and a voxel's box has non-empty interior: around its centre every point within a quarter of the cell size (per normalised axis) is inside *)
+Theorem voxel_box_has_interior o : 0 <= eh o -> 0 <= ev o ->
+  forall du dw da : R,
+    (Rabs du <= bpow radix2 (- eh o - 2))%R -> (Rabs dw <= bpow radix2 (- eh o - 2))%R -> (Rabs da <= bpow radix2 (- ev o - 2))%R ->
+    inR o (((IZR (ex o) + / 2) * bpow radix2 (- eh o) + du)%R, ((IZR (ey o) + / 2) * bpow radix2 (- eh o) + dw)%R,
+           ((IZR (ef o) + / 2) * bpow radix2 (- ev o) + da)%R).
+Proof.
+  intros Hh Hv du dw da Bu Bw Ba.
+  assert (A : forall z n d, 0 <= z -> (Rabs d <= bpow radix2 (- z - 2))%R ->
+              Zfloor (bpow radix2 z * ((IZR n + / 2) * bpow radix2 (- z) + d)) = n).
+  { intros z n d Hz Bd. apply Zfloor_imp.
+    replace (bpow radix2 z * ((IZR n + / 2) * bpow radix2 (- z) + d))%R
+      with ((IZR n + / 2) * (bpow radix2 z * bpow radix2 (- z)) + bpow radix2 z * d)%R by ring.
+    rewrite <- bpow_plus. replace (z + - z) with 0 by lia. cbn [bpow]. rewrite Rmult_1_r.
+    assert (Q : (Rabs (bpow radix2 z * d) <= / 4)%R).
+    { rewrite Rabs_mult, (Rabs_pos_eq (bpow radix2 z)) by apply bpow_ge_0.
+      apply Rle_trans with (bpow radix2 z * bpow radix2 (- z - 2))%R; [apply Rmult_le_compat_l; [apply bpow_ge_0|exact Bd]|].
+      rewrite <- bpow_plus. replace (z + (- z - 2)) with (-2) by lia. cbn. lra. }
+    apply Rabs_le_inv in Q. rewrite plus_IZR. split; lra. }
+  cbn. rewrite !A by assumption. auto.
 Qed.
